@@ -108,8 +108,10 @@ def run_one(ch, ctx):
 
 def fastavro_writes(F, ch, ctx):
     ctx.probe("dir_fastavro_writes")
-    sc = common.container_scenario(ch, max_records=12, hints=True, big=ch.chance(10))
-    sc.sync_interval = common.draw_sync_interval(ch, common.encoded_sizes(sc))
+    sc = common.container_scenario(ch, max_records=12, hints=True, big=ch.chance(10), size_profiles=True)
+    sc.sync_interval = common.draw_sync_interval(ch, common.encoded_sizes(sc) if sc.profile == "small" else [8], sc)
+    if sc.profile != "small":
+        ctx.probe("profile_" + sc.profile)
     if not sc.sync_marker:
         env.seed_entropy(ch.fork("entropy"))
     desc = sc.describe()
@@ -149,7 +151,9 @@ def fastavro_writes(F, ch, ctx):
 
 def peer_writes(F, ch, ctx):
     ctx.probe("dir_peer_writes")
-    sc = common.container_scenario(ch, max_records=12, hints=False, big=ch.chance(10))
+    sc = common.container_scenario(ch, max_records=12, hints=False, big=ch.chance(10), size_profiles=True)
+    if sc.profile != "small":
+        ctx.probe("profile_" + sc.profile)
     recs = [common.strip_hints(r, sc.node) for r in sc.records]
     blocks = []
     i = 0
